@@ -256,6 +256,18 @@ def gen(rng, tier):
         order = list(range(k))
         rng.shuffle(order)
         yield dict(kind="evaluate", type=rng.choice(["combo", "inter"]), chains=chains, order=order, vseed=rng.getrandbits(32))
+    # a few long evaluations (an unstable sort or a per-chain shortcut only shows beyond a few dozen columns)
+    for _ in range(2 if not big else 10):
+        chains = [[n, n] for n in (rng.randint(40, 70), rng.randint(30, 50), rng.randint(50, 80))][:rng.choice([2, 3])]
+        order = list(range(len(chains)))
+        rng.shuffle(order)
+        yield dict(kind="evaluate", type=rng.choice(["combo", "inter"]), chains=chains, order=order, vseed=rng.getrandbits(32))
+    # checkpoints of a growing collection
+    for _ in range(30 if not big else 300):
+        n = rng.randint(2, 4)
+        yield dict(kind="checkpoint", type=rng.choice(["inter", "inter", "inter", "combo"]), dims=[rng.randint(1, 3), rng.randint(1, 3), rng.randint(1, 2)],
+                   mode=rng.choice(["mixed", "mixed", "f32"]) if False else "mixed", tsize=rng.randint(1, 6),
+                   steps=["first"] + [rng.choice(["revalue", "revalue", "grow", "both", "same"]) for _ in range(n - 1)], vseed=rng.getrandbits(32))
     # ops
     for _ in range(90 if not big else 900):
         declared = rng.choice([-2, 0, 1, 2, 3, 5, 11, 13])
@@ -630,8 +642,44 @@ def _run_ops(desc):
     return dict(wire=[4, declared, wire_ops], impl=out, pred=pred, features=feats, cmp=cmpf)
 
 
+def _run_checkpoint(desc):
+    """a collection saved more than once while it grows (checkpointing): interaction samples share ONE single-effect
+    table object that the model updates in place between the saves (same keys re-measured, or new keys); every save
+    followed by a load must give back the collection as it is at that moment (implementation-only predicate)"""
+    from batchie.core import ThetaHolder
+    r = random.Random(desc["vseed"])
+    typ, steps, mode = desc["type"], desc["steps"], desc["mode"]
+    dims = tuple(desc["dims"])
+    table = make_table(r, desc["tsize"], mode) if typ == "inter" else None
+    d = _tmpdir()
+    pred = None
+    try:
+        h = ThetaHolder(len(steps))
+        for k, how in enumerate(steps):
+            if typ == "inter" and k > 0:
+                if how in ("revalue", "both"):        # same keys, new values (the same wells measured again)
+                    for key in list(table):
+                        table[key] = _value(r, mode)
+                if how in ("grow", "both"):
+                    table[(7 + k, k)] = _value(r, mode)
+            h.add_theta(make_sample(r, typ, dims, mode, "f8", table))
+            fn = os.path.join(d, "ck%d.h5" % k)
+            h.save_h5(fn)
+            back = ThetaHolder.load_h5(fn)
+            now = [canon_sample(t) for t in h.thetas]
+            got = [canon_sample(t) for t in back.thetas]
+            if pred is None and got != now:
+                pred = "checkpoint %d (%s): the collection saved after %d sample(s) does not reload as it was at that moment (%s)" % (
+                    k, how, k + 1, "number of samples" if len(got) != len(now) else "a parameter value / the shared single-effect table differs")
+    finally:
+        shutil.rmtree(d, ignore_errors=True)
+    return dict(wire=None, impl=None, pred=pred, features=["checkpoint", "type:" + typ] + sorted({"step:" + x for x in steps[1:]}))
+
+
 def run(desc):
     k = desc["kind"]
+    if k == "checkpoint":
+        return _run_checkpoint(desc)
     if k == "keys":
         return _run_keys(desc)
     if k == "roundtrip":
